@@ -1,0 +1,16 @@
+//go:build verif
+// +build verif
+
+package node
+
+import "github.com/Oneledger/protocol/data/keys"
+
+// NewVerifContext builds a node Context from in-memory keys (verification harness only).
+func NewVerifContext(name string, nodeKey, privValKey, ecdsaKey keys.PrivateKey) *Context {
+	return &Context{
+		NodeName:     name,
+		privateKey:   nodeKey,
+		privval:      privValKey,
+		ecdsaPrivVal: ecdsaKey,
+	}
+}
